@@ -464,6 +464,10 @@ def run_engine(P, eng, exe, res, rng, tier, known):
             cls = [f for f in known if f.get('engine') == eng.name and f.get('case_regex')
                    and re.search(f['case_regex'], c.ops[0] if c.ops else '')
                    and (not f.get('op_regex') or (d < len(c.ops) and re.search(f['op_regex'], c.ops[d])))]
+            if cls and any(f.get('stderr_regex') for f in cls):
+                # the class is also identified by the sanitizer report of this very case
+                _, cerr = eng.run_impl(exe, [c])
+                cls = [f for f in cls if not f.get('stderr_regex') or re.search(f['stderr_regex'], cerr)]
             if cls:
                 if cls[0]['id'] not in res.known_seen:
                     print(f"KNOWN-FINDING: property={P.PROP} {cls[0]['what']}", flush=True)
